@@ -22,11 +22,8 @@ def cli_case(draw):
     spec = draw(D.dataset_spec(max_loci=3, max_snvs=4, max_samples=3, max_reads=25, mapq_values=(60,), flags=False, min_reads=1))
     ploidy = {s: draw(st.sampled_from([2, 4, 3, 5])) for s in spec["samples"]}
     inbreeding = {s: draw(st.sampled_from([0.0, 0.0, 0.1, 0.5])) for s in spec["samples"]}
-    reports = list(draw(st.permutations(REPORTS)))[:4]
-    if not any("GP" in " ".join(r) or "GL" in " ".join(r) for r in reports):
-        reports[0] = ["FORMAT/GP"]
-    if all("GP" in " ".join(r) or "GL" in " ".join(r) for r in reports):
-        reports[1] = ["AFP"]
+    reports = [["AFP"], ["GP", "GL", "AFP", "AOP", "ACP"]] + list(draw(st.permutations(REPORTS)))[:2]
+    reports = list(draw(st.permutations(reports)))
     return {"kind": "cli", "spec": spec, "ploidy": ploidy, "inbreeding": inbreeding, "reports": reports, "seed": draw(st.integers(1, 10000)),
             "threshold": draw(st.sampled_from([0.05, 0.2])), "prior": draw(st.booleans())}
 
@@ -56,8 +53,9 @@ def check_cli(ctx, case):
                     problems.append(Problem("call-exact:raised:%s" % type(e).__name__, "--report %s: %s" % (rep, CLI.describe(e))))
                     return problems
                 runs.append((rep, CLI.parse_records(o)))
-            base_rep, (_, samples, base) = runs[0]
-            for rep, (_, _, recs) in runs[1:]:
+            samples = runs[0][1][1]
+            pairs = [(runs[i], runs[j]) for i in range(len(runs)) for j in range(i + 1, len(runs))]
+            for (base_rep, (_, _, base)), (rep, (_, _, recs)) in pairs:
                 uses_array = lambda r: any(x.endswith("GP") or x.endswith("GL") for x in r)
                 if uses_array(rep) != uses_array(base_rep):
                     nontrivial = True
@@ -90,6 +88,16 @@ def check_cli(ctx, case):
                     n_all = len(r["ALT"]) + 1
                     for s in samples:
                         d = r["samples"][s]
+                        if "AFP" in d and d["AFP"] != "." and "." not in d["GT"].split("/"):
+                            afp = V.floats(d["AFP"])
+                            if abs(sum(x or 0 for x in afp) - 1.0) > 0.0005 * len(afp) + 1e-6:
+                                problems.append(Problem("cli:AFP_sum", "%s:%d sample %s AFP=%s sums to %r (--report %s)" % (r["CHROM"], r["POS"], s, d["AFP"], sum(x or 0 for x in afp), rep)))
+                                return problems
+                        if "ACP" in d and d["ACP"] != "." and "." not in d["GT"].split("/"):
+                            acp = V.floats(d["ACP"])
+                            if abs(sum(x or 0 for x in acp) - case["ploidy"][s]) > 0.0005 * len(acp) + 1e-6:
+                                problems.append(Problem("cli:ACP_sum", "%s:%d sample %s ACP=%s sums to %r, ploidy %d (--report %s)" % (r["CHROM"], r["POS"], s, d["ACP"], sum(x or 0 for x in acp), case["ploidy"][s], rep)))
+                                return problems
                         if "GP" in d and d["GP"] != ".":
                             gp = V.floats(d["GP"])
                             n_g = R.n_genotypes(n_all, case["ploidy"][s])
